@@ -1,4 +1,4 @@
 From Coq Require Import ZArith List Extraction ExtrOcamlBasic.
 From N2kV Require Import Model.SoftFloat Model.NumDefs.
 Extraction Language OCaml.
-Extraction "Extract/model_C06.ml" add_double get_double add_float get_float add_int get_int decode b64 b32 is_nan na_double_bits Z.add Z.mul Z.div Z.modulo Z.opp.
+Extraction "Extract/model_C06.ml" add_double add_double_u set_buf_double get_double add_float get_float add_int get_int decode b64 b32 is_nan na_double_bits Z.add Z.mul Z.div Z.modulo Z.opp.
